@@ -208,7 +208,7 @@ def run(chk):
     for (p, cons, arg, call), L in cases:
         reqs.append({"op": "run", "src": f"let g = {p.src};\nlet a = g.{call};\n", "get": ["a"],
                      "limits": {"search": L, "ud_calls": 2_000_000}})
-        cname = cons if arg is None else f"{cons}:{arg}"
+        cname = c16.cons_name(cons, arg)
         mlines.append(f"gen {cname} {L} {c16.FUEL} " + " ".join(p.toks))
     impl = run_harness(reqs, per_req_timeout=WATCHDOG)
     model = run_model(mlines)
@@ -220,7 +220,7 @@ def run(chk):
         chk.count("A:limit:" + str(L))
         chk.count("A:outcome:" + (a if a in ("ERR", "VIOL", "PANIC", "HANG") else "value"))
         if len(p.ops) >= 3:
-            chk.nontrivial.add(tuple(p.toks) + (cons, arg, L))
+            chk.nontrivial.add(tuple(p.toks) + (cname, L))
         sig = "+".join(sorted(set(p.ops)))
         if a in ("HANG", "PANIC") or a.startswith("COMPILE"):
             kind = "hang" if a == "HANG" else ("panic" if a == "PANIC" else "harness")
